@@ -21,7 +21,8 @@ class CtlGen:
     def statement(self, depth=0):
         r = self.r
         k = r.weighted([('mark', 5), ('assign', 3), ('call', 3 if depth < 2 else 0), ('if', 2 if depth < 2 else 0),
-                        ('for', 1 if depth < 1 else 0), ('foreach', 1 if depth < 1 else 0), ('err', 1)])
+                        ('for', 1 if depth < 1 else 0), ('foreach', 1 if depth < 1 else 0), ('err', 1),
+                        ('exitwith', 2 if depth < 2 else 0), ('breakout', 2 if depth < 1 else 0), ('trycatch', 1 if depth < 1 else 0)])
         self.note('stmt:' + k)
         if k == 'mark':
             return self.mark()
@@ -29,6 +30,13 @@ class CtlGen:
             return 'g%d = %d + %d' % (r.below(3), r.below(9), r.below(9))
         if k == 'err':
             return r.choice(['1 + "a"', '[] select 5', 'call 5'])
+        if k == 'exitwith':
+            # one instruction (the end of the exitWith block) pops several frames at once
+            return 'call { if (true) exitWith { %s; 7 }; %s }' % (self.mark(), self.mark())
+        if k == 'breakout':
+            return 'call { scopeName "o"; %s; call { call { %s; 5 breakOut "o" }; %s }; %s }' % (self.mark(), self.mark(), self.mark(), self.mark())
+        if k == 'trycatch':
+            return 'try { %s; call { call { throw 1 } }; %s } catch { %s }' % (self.mark(), self.mark(), self.mark())
         inner = '; '.join(self.statement(depth + 1) for _ in range(1 + r.below(3)))
         if k == 'call':
             return 'call { %s }' % inner
